@@ -79,6 +79,11 @@ CLAIMED = {
    text="TLC checks that the trie walk decides exactly the declarative predicate for every set of <= 2 directives of depth <= 3 over {f, g, *} and every scope of depth <= 4 (the construction as it was is kept as OperMatchesRaw and refuted by TLC: prefix directives). Every pair is replayed on NewPathSpec(...).Matches. For documents of Ent and Nest (every subset of fields removed) under 19 exclusion specs, the real compact / pretty JSON and ROR2 writers configured with the spec must emit exactly Strip(value), and the JSON, ROR2 and untyped readers configured with it must raise ExcludedFieldError iff the document carries an excluded value, otherwise report exactly the non-excluded missing required fields; the same holds with the document wrapped 1 and 2 levels deep and the matching leading-scope offset.",
    note="no meaning is assigned to Matches on scopes containing $set / $delete; the wire-level clauses through generated client and server are exercised with C02's harness",
    design="5/C07"),
+ "C04": dict(
+   technique="TLA+ spec Ror2Lex.tla: implementation-shaped model of the cursor-based ROR2 reader with the invariant InBounds (no access with pos >= len), checked by TLC on every token string of the bound (the reader as it was, Guards = FALSE, is refuted by TLC with the inputs that crashed it); accept/reject verdicts exported and compared with the real reader; exhaustive bounded strings, single-edit mutations of valid encodings and hostile HTTP exchanges executed against every entry point under recover and a watchdog",
+   text="TLC checks on all strings of <= 5 (quick) / <= 7 (thorough) tokens over { ( ) , : ' a List( } that the modelled parser never indexes outside its input and ends inside it. Every such string, all strings over the query and JSON alphabets, 31 untyped Go values and every truncation / single-character delete / replace / insert of the valid encodings of the VT values are fed to 17 reader entry points, ParseQueryParams, the generated unmarshalers, the raw-record decoder and the untyped reader of both module generations: each call must return. Hostile bytes are injected at every peer-controlled position of an HTTP exchange: the server must answer without 5xx, recovered panic or stack trace and run resource code only for 2xx, the client call must return.",
+   note="a verdict is only ever a panic, a hang or a 5xx observed on the real code; acceptance of ill-formed strings is recorded (model conformance) but not judged; no coverage-guided fuzzing",
+   design="5/C04"),
 }
 
 NOT_YET = {}
